@@ -16,11 +16,12 @@
        HashMap iteration order (tag `class-loose`).
    Executable property (spec = Sem.FunTyping.has_type_b, evaluated on the input; the verdict is
    about the REAL checker's answer):
-     - Rust rejects a program the specification types:  VIOL class=rejects-well-typed err=<V>
-       repair=eager-instances:<accepts|rejects> …   (repair = does the model with the one-line repair
-       of the instance-order defect, Check.check_repaired, accept the program?)
+     - Rust rejects a program the specification types:  VIOL class=rejects-well-typed err=<V> …
        (for a `wt` case whose input the specification does NOT type: BAD, the input is wrong);
      - Rust accepts a program the specification rejects: VIOL class=accepts-ill-typed:<tag> spec=<reason> …
+       (for an ill-formed type in a declaration <reason> = template-type-ill-formed:<shape> lax=<accepts|rejects>:
+        the shape of the first defect, and whether the program satisfies the rules once declaration
+        types are checked by head name only - the class predicate of the known finding)
      - a mutant the specification types and Rust accepts:  SKIP mutant-well-typed
      - on accept: every annotation is present and the checked definitions erase to the parsed ones
        up to the order of clauses, else  VIOL class=annotation …
@@ -91,9 +92,7 @@ Definition check_case (i r : sexp) : verdict :=
                     else if negb (defs_erase_to (fcpdefs q) (fdefs (fpdecls p))) then Some (VViol ("class=annotation erasure " ++ corr_tag))
                     else if is_wt then None else Some (VSkip "mutant-well-typed")
                 | RRej v =>
-                    if spec then Some (VViol ("class=rejects-well-typed err=" ++ v ++ " repair=eager-instances:"
-                                              ++ (match check_repaired p with COk _ => "accepts" | CErr _ => "rejects" end)
-                                              ++ " tag=" ++ tag ++ " " ++ corr_tag))
+                    if spec then Some (VViol ("class=rejects-well-typed err=" ++ v ++ " tag=" ++ tag ++ " " ++ corr_tag))
                     else if is_wt then Some (VBad ("wt-tagged input is ill-typed by the specification: " ++ ill_reason p))
                     else None
                 | RPanic => Some (VViol ("class=checker-panic " ++ corr_tag))
